@@ -21,7 +21,7 @@ DEFAULTS = dict(
     codingSplitChar=',', gzipParamSep=';', gzipChain=[], gzipMatchOp=0, gzipCoding='',
     gzipMatchReturns=False, gzipElseReturns=False,
     contentTypeText='', contentTypeOM='',
-    nameKey='', contentTypeHeader='', contentEncodingHeader=('', ''), bakeStatus='',
+    nameKey='', nameValueSplit='', nameValueDropEmpty=False, contentTypeHeader='', contentEncodingHeader=('', ''), bakeStatus='',
     compressNeedsEnabled=False, compressNeedsAccepted=False,
     wsgiOptionsMethod='', wsgiOptionsStatus='', wsgiOptionsHeaders=[], wsgiGetMethods=[],
     wsgi405Status='', wsgi405Headers=[], faviconPath='', faviconStatus='', faviconHeaders=[],
@@ -69,6 +69,9 @@ def _emit(v, fails):
     out += 'def contentTypeOM : List Char := %s\n' % chars(v['contentTypeOM'])
     out += '-- _bake_output\n'
     out += 'def nameKey : List Char := %s\n' % chars(v['nameKey'])
+    out += '-- [] = the values of name[] are passed on as they are; [c] = every value is first split on c (empty pieces dropped iff nameValueDropEmpty)\n'
+    out += 'def nameValueSplit : List Char := %s\n' % chars(v['nameValueSplit'])
+    out += 'def nameValueDropEmpty : Bool := %s\n' % _b(v['nameValueDropEmpty'])
     out += 'def contentTypeHeader : List Char := %s\n' % chars(v['contentTypeHeader'])
     out += 'def contentEncodingHeader : List Char × List Char := (%s, %s)\n' % (
         chars(v['contentEncodingHeader'][0]), chars(v['contentEncodingHeader'][1]))
@@ -245,11 +248,37 @@ def _site_bake(tree, v):
     if ast.unparse(body[0]) != 'encoder, content_type = choose_encoder(accept_header)': raise Fail('choose_encoder call changed')
     t = body[1].test
     if not (isinstance(t, ast.Compare) and len(t.ops) == 1 and isinstance(t.ops[0], ast.In)
-            and ast.unparse(t.comparators[0]) == 'params' and not body[1].orelse and len(body[1].body) == 1):
+            and ast.unparse(t.comparators[0]) == 'params' and not body[1].orelse and len(body[1].body) in (1, 2)):
         raise Fail("`if KEY in params:` expected")
     key = const(t.left, str)
-    if ast.unparse(body[1].body[0]) != 'registry = registry.restricted_registry(params[%r])' % key:
-        raise Fail('restriction statement changed: %s' % ast.unparse(body[1].body[0]))
+    rb = body[1].body
+    if len(rb) == 1:
+        if ast.unparse(rb[0]) != 'registry = registry.restricted_registry(params[%r])' % key:
+            raise Fail('restriction statement changed: %s' % ast.unparse(rb[0]))
+    else:
+        # variant: every value is split on a one-character separator before the restriction
+        #   X = [n for value in params[KEY] for n in value.split(SEP) (if n)];  registry = registry.restricted_registry(X)
+        a0 = rb[0]
+        if not (isinstance(a0, ast.Assign) and len(a0.targets) == 1 and isinstance(a0.targets[0], ast.Name)
+                and isinstance(a0.value, ast.ListComp) and len(a0.value.generators) == 2):
+            raise Fail('restriction statements changed: %s' % ast.unparse(a0))
+        lc, (g1, g2) = a0.value, a0.value.generators
+        if not (isinstance(lc.elt, ast.Name) and isinstance(g2.target, ast.Name) and lc.elt.id == g2.target.id
+                and isinstance(g1.target, ast.Name) and ast.unparse(g1.iter) == 'params[%r]' % key and not g1.ifs
+                and isinstance(g2.iter, ast.Call) and isinstance(g2.iter.func, ast.Attribute) and g2.iter.func.attr == 'split'
+                and ast.unparse(g2.iter.func.value) == g1.target.id and len(g2.iter.args) == 1 and not g2.iter.keywords):
+            raise Fail('restriction comprehension not understood: %s' % ast.unparse(a0))
+        sep = const(g2.iter.args[0], str)
+        if len(sep) != 1: raise Fail('name[] value separator %r is not one character' % sep)
+        if g2.ifs == []:
+            v['nameValueDropEmpty'] = False
+        elif len(g2.ifs) == 1 and ast.unparse(g2.ifs[0]) == g2.target.id:
+            v['nameValueDropEmpty'] = True
+        else:
+            raise Fail('restriction comprehension filter not understood: %s' % ast.unparse(a0))
+        if ast.unparse(rb[1]) != 'registry = registry.restricted_registry(%s)' % a0.targets[0].id:
+            raise Fail('restriction statement changed: %s' % ast.unparse(rb[1]))
+        v['nameValueSplit'] = sep
     v['nameKey'] = key
     if ast.unparse(body[2]) != 'output = encoder(registry)': raise Fail('output = encoder(registry) expected')
     hv = body[3].value
